@@ -13,16 +13,20 @@ CHECKS = {
     "C02": dict(
         category="other",
         text="Agreement of discrete samplers with the reference algorithm they cite, decided from the MIR by computer algebra with the machinery of C01 — "
-             "not the pmf itself. Covered so far: Zeta (Devroye's rejection: proposal floor(U^(-1/(s-1))), b = 2^(s-1), the acceptance test, the "
-             "infinite-proposal return) and Zipf (normaliser t and q on the three parameter regimes of Zipf::new, the inverse CDF of the piecewise "
-             "envelope, proposal floor(B) + 1, the acceptance ratio x^-s resp. x^-s B^s). Every comparison is a test of the reference, the decision "
+             "not the pmf itself. Covered: Zeta (Devroye's rejection: proposal floor(U^(-1/(s-1))), b = 2^(s-1), the acceptance test, the "
+             "infinite-proposal return); Zipf (normaliser t and q on the three parameter regimes of Zipf::new, the inverse CDF of the piecewise "
+             "envelope, proposal floor(B) + 1, the acceptance ratio x^-s resp. x^-s B^s); and, as transition systems cut at every loop header (state "
+             "variables, guards, updates, returned terms): Poisson/Knuth, StandardGeometric, Binomial::new (method switch, flip, Binv and Btpe constants "
+             "incl. p1 = floor(2.195 sqrt(npq) - 4.6 q) + 0.5), BINV (recurrence r *= a/x - s, restart at 110, reflection) and BTPE (Kachitvichyanukul & "
+             "Schmeiser: regions 1-4 with c, lambda_l/r, p2..p4, the region-4 guards, step 5.0 switch, both step-5.1 recursions, the squeeze of 5.2 "
+             "with rho and t, the final test of 5.3 with the Stirling corrections and their signs, the reflection). Every comparison is a test of the reference, the decision "
              "functions agree on every feasible truth assignment, returned terms and derived constants are identical over the reals.",
         design_ref="DESIGN.md 5/C02 and 11.9",
-        note="PARTIAL: Binomial (BINV, BTPE), Poisson (Knuth, Ahrens-Dieter), Geometric, StandardGeometric and Hypergeometric (HIN, H2PE) are NOT examined by this "
-             "check (their loops carry state between iterations or are nested; listed in the evidence notes) — for those families nothing of C02 is decided. "
+        note="PARTIAL: Poisson's rejection method (Ahrens-Dieter), Geometric and Hypergeometric (HIN, H2PE) are NOT examined by this check yet (listed in the evidence "
+             "notes) — for those nothing of C02 is decided. `as u64` / `as f64` casts are transparent in the terms (floor of a cast is not modelled). "
              "NOT decided anywhere: the probability mass function (that the references have the documented pmf is a cited theorem), the numerical "
              "accuracy of the acceptance test for huge proposals (the Zeta(1.05) deviation named in the property is of that kind).",
-        technique="decision-structure extraction from rustc MIR + computer-algebra identity and truth-table comparison against transcribed reference algorithms (as C01)",
+        technique="decision-structure and transition-system extraction from rustc MIR (cut points at loop headers, path-sensitive values of loop-carried variables) + computer-algebra identity and path-pair comparison against transcribed reference algorithms",
         engine="rdx+E4+sympy",
     ),
     "C01": dict(
